@@ -293,6 +293,10 @@ def graph_spec(nodes, rng=None):
                     lab += 1
             if not arms:
                 arms.append({"labels": ["0"], "body": "void"})
+            # the default arm need not be the last one: what is written after it counts as much as what is written before
+            if rng and len(arms) >= 2 and arms[-1].get("default") and rng.chance(1, 2):
+                d = arms.pop()
+                arms.insert(rng.below(len(arms)), d)
             items.append({"k": "union", "name": name(i), "swty": "int", "swvar": "d", "arms": arms})
     return items
 
